@@ -243,6 +243,10 @@ class SigmaFilter(SigmaRuleBase):
         # the structure of the original identifier names so that wildcard patterns in the
         # filter condition (e.g. "1 of selection_*") continue to work after renaming.
         prefix = "_filt_" + "".join(random.choices(string.ascii_lowercase, k=10))
+        # A filter applied to this rule before may have drawn the same prefix: its detections would
+        # be overwritten and its patterns would match the detections added here. Draw again then.
+        while any(name.startswith(prefix + "_") for name in rule.detection.detections):
+            prefix = "_filt_" + "".join(random.choices(string.ascii_lowercase, k=10))
 
         # Rename every filter detection identifier with the shared prefix.
         # Every rule gets detection objects of its own: processing pipelines change them in place.
